@@ -27,7 +27,7 @@ REQUIRED_OBS = {"endurance_calls": 100, "slices": 300, "pixels_decided": 20000, 
                 "default_position": 5, "parallel": 50, "reuse": 5, "cli_runs": 30}
 CHAIN = {"quick": 2, "thorough": 20}
 TIMEOUT = {"quick": 600, "thorough": 3000}
-NAMES = ["ax", "ay", "az", "tagx", "tagy", "tagz", "rnd", "near", "cix", "ciy", "ciz"]
+NAMES = ["ax", "ay", "az", "tagx", "tagy", "tagz", "rnd", "near", "cix", "ciy", "ciz", "trc"]
 
 
 def cases(tier, seed):
@@ -98,7 +98,7 @@ def judge(m, vol, n, pos, L, fl, o1, o2, ref):
                 continue
         e = ref["value"][..., names.index(nm)].T
         d = dec.T
-        scale = slicemodel.scale_of(e[d])
+        scale = slicemodel.field_scale(m, names.index(nm))
         bad = d & slicemodel.differs(a, e, slicemodel.value_tol(m, L, n) * scale)
         if bad.any():
             j, i = np.argwhere(bad)[0]
@@ -158,7 +158,7 @@ def run_case(case, work, rec):
                     rec.skip("position within the snapping tolerance of a cell centre")
                     continue
                 fl = rng.choice([["all"], ["a" + "xyz"[n], "tag" + "xyz"[n], "rnd", "grid_level"],
-                                 ["rnd"], ["a" + "xyz"[n], "grid_level"], ["tagx", "ay"], ["near", "rnd"],
+                                 ["rnd"], ["a" + "xyz"[n], "grid_level"], ["tagx", "ay"], ["near", "rnd"], ["trc"], ["trc", "a" + "xyz"[n]],
                                  ["grid_level", "rnd"], ["tag" + "xyz"[n], "grid_level", "a" + "xyz"[n]],
                                  ["grid_level", "near", "ax"], ["ci" + "xyz"[n], "rnd"]])
                 serial = rng.random() < 0.5
